@@ -1097,7 +1097,7 @@ func (tb *TB) call(c *ssa.Call) *Term {
 		args = append(args, tb.Term(cc.Value))
 	}
 	for _, a := range cc.Args {
-		args = append(args, tb.Term(a))
+		args = append(args, tb.baseTerm(a))
 	}
 	switch name {
 	case "builtin append":
